@@ -554,12 +554,12 @@ class BaseCM(_VObj):
   """A classmethod inherited by SubCM: SubCM.make and BaseCM.make wrap the same function but are
   bound to different classes (and build different objects)."""
 
-  def __init__(self, x=None, child=None):
-    self.__vrec__ = record(type(self).__qualname__, {'x': x, 'child': child})
+  def __init__(self, x=None, y=None, child=None):
+    self.__vrec__ = record(type(self).__qualname__, {'x': x, 'y': y, 'child': child})
 
   @classmethod
-  def make(cls, x=None, child=None):
-    return cls(x=x, child=child)
+  def make(cls, x=None, y=None, child=None):
+    return cls(x=x, y=y, child=child)
 
 
 class SubCM(BaseCM):
